@@ -37,6 +37,10 @@ OBLIGATIONS = [
     "Grog.C09.serOutput_injective",
     "Grog.C09.outHash_outputs_inj",
     "Grog.C09.outHash_order_independent",
+    "Grog.C09.nocache_outHash_inj",
+    "Grog.C09.nocache_outHash_order_independent",
+    "Grog.C09.nocache_old_swap_witness",
+    "Grog.C09.hashContent_inj",
 ]
 ASSUMPTIONS = [
     "hash function injective on the streams that occur (explicit hypothesis of key_eq_iff; example instantiates it)",
@@ -164,6 +168,20 @@ def targeted_pairs():
     out.append(("missing-vs-empty-file", st(inputs=["a", "b"], files={"a": None, "b": "x"}), st(inputs=["a", "b"], files={"a": "", "b": "x"})))
     out.append(("content-looks-like-frame", st(inputs=["a", "b"], files={"a": "\x01\x00\x00\x00\x00\x00\x00\x00\x00", "b": None}),
                 st(inputs=["a", "b"], files={"a": "", "b": ""})))
+    # weakened per-file frames ([presence][8-byte size][content]): pairs that collide as soon as one of the three parts is dropped
+    def be64(n):
+        return "".join(chr((n >> (8 * (7 - i))) & 255) for i in range(8))
+    for lo in (0, 2, 9):
+        body = "".join(chr(65 + (i % 23)) for i in range(248 + lo))
+        # without the presence byte of present files: 00 | size(256+lo) size(248+lo) body   ==   size(1) lo | size(248+lo) body
+        out.append(("frame:missing-marker-vs-size-header", st(inputs=["a", "b"], files={"a": None, "b": be64(248 + lo) + body}),
+                    st(inputs=["a", "b"], files={"a": chr(lo), "b": body})))
+    # without any marker for a missing file: which of the two files is the missing one
+    out.append(("frame:which-file-is-missing", st(inputs=["a", "b"], files={"a": None, "b": "x"}), st(inputs=["a", "b"], files={"a": "x", "b": None})))
+    out.append(("frame:which-file-is-missing", st(inputs=["a", "b", "c"], files={"a": "x", "b": None, "c": "y"}), st(inputs=["a", "b", "c"], files={"a": "x", "b": "y", "c": None})))
+    # without the size header: a presence byte inside the content
+    out.append(("frame:presence-byte-in-content", st(inputs=["a", "b"], files={"a": "x\x01", "b": ""}), st(inputs=["a", "b"], files={"a": "x", "b": "\x01"})))
+    out.append(("frame:presence-byte-in-content", st(inputs=["a", "b"], files={"a": "x\x00", "b": ""}), st(inputs=["a", "b"], files={"a": "x", "b": None})))
     # duplicates / order (must be equal)
     out.append(("dup-input", st(inputs=["a", "a"], files={"a": "x"}), st(inputs=["a"], files={"a": "x"})))
     out.append(("dup-input", st(inputs=["a", "b", "a"], files={"a": "x", "b": "y"}), st(inputs=["b", "a"], files={"a": "x", "b": "y"})))
@@ -335,6 +353,7 @@ def run(ctx):
     for fam, s1, s2 in pairs[:3]:
         ctx.sample({"family": fam, "state1": s1, "state2": s2})
     outhash_section(ctx, env)
+    digest_section(ctx, env)
     cli_section(ctx)
     # ---- 3. correspondence verdict ------------------------------------------------------------------
     ctx.coverage["disagreements"] = len(disagreements)
@@ -437,6 +456,124 @@ def outhash_section(ctx, env):
                       "n_disagreements": len(dis)}, found_input=False)
 
 
+def digest_section(ctx, env):
+    """the digests that enter keys through dependencies: HashFile / HashBytes / HashString are the configured hash of the whole content
+    (model: hashContent), also for files far beyond any buffer or chunk size (oracle: digests equal iff contents equal, on files made of
+    permuted / dropped / repeated blocks), and GetNoCacheOutputHash (model: outHashNoCache; oracle: equal iff the same set of
+    (output definition, content), wherever the workspace is)."""
+    rng = ctx.rng
+    quick = ctx.tier == "quick"
+    tied = ("sha256", "xxh3") if ctx.coverage.get("xxh3_vector_disagreements", 0) == 0 else ("sha256",)
+    # (a) literal contents
+    lens = [0, 1, 3, 8, 16, 17, 128, 129, 240, 241, 1023, 1024, 1025, 4096, 5000, 32768, 32769, 70001]
+    reqs = [{"op": "hash.file", "algo": algo, "s": "".join(chr(rng.randrange(256)) for _ in range(n))} for n in lens for algo in ("sha256", "xxh3")]
+    impl = ctx.impl(reqs, env=env)
+    if impl is None:
+        return
+    tr = [(r, x) for r, x in zip(reqs, impl) if r["algo"] in tied]
+    mod = ctx.model([r for r, _ in tr])
+    dis = [(r, x, y) for (r, x), y in zip(tr, mod) if x != y]
+    # (b) large files made of blocks
+    bss = [4 << 20, 1 << 20] if quick else [4 << 20, 1 << 20, 64 << 10, 8 << 20]
+    pairs = []
+    for bs in bss:
+        nb = max(3, (9 << 20) // bs) if bs >= (1 << 20) else 40
+        ids = list(range(nb))
+        perm = ids[:]; perm[0], perm[-1] = perm[-1], perm[0]
+        mid = ids[:]; mid[1], mid[2] = mid[2], mid[1]
+        pairs += [(bs, ids, perm, 0, 0), (bs, ids, mid, 0, 0), (bs, ids, ids[:-1], 0, 0), (bs, ids, ids + [ids[0]], 0, 0), (bs, ids, ids, 0, 0),
+                  (bs, ids, ids, 7, 8), (bs, ids, perm, 5, 5), (bs, ids[:-1] + [99], ids, 0, 0)]
+    breqs = []
+    for bs, a_, b_, ta, tb in pairs:
+        for algo in ("xxh3", "sha256"):
+            breqs.append({"op": "hash.file", "algo": algo, "blocks": a_, "bs": bs, "tail": ta})
+            breqs.append({"op": "hash.file", "algo": algo, "blocks": b_, "bs": bs, "tail": tb})
+    bout = ctx.impl(breqs, env=env)
+    if bout is None:
+        return
+    for i, (bs, a_, b_, ta, tb) in enumerate(pairs):
+        same = (a_, ta) == (b_, tb)
+        for k, algo in enumerate(("xxh3", "sha256")):
+            x, y = bout[4 * i + 2 * k], bout[4 * i + 2 * k + 1]
+            if "file" not in x or "file" not in y:
+                continue
+            if same != (x["file"] == y["file"]):
+                ctx.violation("two files with different contents receive the same digest (or the same content two digests): the digest of a large file "
+                              "is not a function of exactly its bytes in order",
+                              {"kind": "oracle", "oracle": "HashFile equal iff content equal (files made of %d-byte blocks)" % bs, "algo": algo,
+                               "request1": breqs[4 * i + 2 * k], "request2": breqs[4 * i + 2 * k + 1], "digest1": x["file"], "digest2": y["file"]},
+                              signature="file-digest-not-content-injective")
+    # (c) no-cache output hash
+    names = ["o", "o2", "a", "b", "sub/o", "a,b", "x:y", "10", "o o"]
+    conts = ["", "a", "b", "ab", "x,y", "0", "hello\n"]
+    npairs = 120 if quick else 1500
+    nreqs, meta = [], []
+    for _ in range(npairs):
+        outs = [[n_, rng.choice(conts)] for n_ in rng.sample(names, rng.randint(0, 3))]
+        dirs = [["d%d" % k, [[rng.choice(["f", "s/g"]), rng.choice(conts)] for _ in range(rng.randint(0, 2))]] for k in range(rng.choice([0, 0, 1]))]
+        for d_ in dirs:
+            d_[1] = [list(t) for t in dict((f[0], f[1]) for f in d_[1]).items()]
+        outs2, dirs2 = copy.deepcopy(outs), copy.deepcopy(dirs)
+        kind = rng.choice(["perm", "swap", "content", "rename", "same", "drop", "dirfile"])
+        if kind == "perm":
+            rng.shuffle(outs2)
+        elif kind == "swap" and len(outs2) >= 2:
+            outs2[0][1], outs2[1][1] = outs2[1][1], outs2[0][1]
+        elif kind == "content" and outs2:
+            outs2[0][1] = rng.choice(conts)
+        elif kind == "rename" and outs2:
+            free = [n_ for n_ in names if n_ not in [o[0] for o in outs2]]
+            outs2[0][0] = rng.choice(free)
+        elif kind == "drop" and outs2:
+            outs2.pop()
+        elif kind == "dirfile" and dirs2 and dirs2[0][1]:
+            dirs2[0][1][0][1] = rng.choice(conts)
+        pkg = rng.choice(["", "p", "p/q"])
+        for algo in ("xxh3", "sha256"):
+            nreqs.append({"op": "hash.nocache", "algo": algo, "rootname": "here", "pkg": pkg, "name": "t", "outputs": outs, "dirs": dirs})
+            nreqs.append({"op": "hash.nocache", "algo": algo, "rootname": "else/where/deeper", "pkg": pkg, "name": "t", "outputs": outs2, "dirs": dirs2})
+        meta.append((kind, outs, dirs, outs2, dirs2))
+    nout = ctx.impl(nreqs, env=env)
+    if nout is None:
+        return
+    ntr = [(r, x) for r, x in zip(nreqs, nout) if r["algo"] in tied and not r["dirs"]]
+    nmod = ctx.model([r for r, _ in ntr])
+    dis += [(r, x, y) for (r, x), y in zip(ntr, nmod) if x != y]
+    canon = lambda outs, dirs: (sorted(map(tuple, outs)), sorted((d[0], tuple(sorted(map(tuple, d[1])))) for d in dirs))
+    ndiff = 0
+    for i, (kind, outs, dirs, outs2, dirs2) in enumerate(meta):
+        same = canon(outs, dirs) == canon(outs2, dirs2)
+        ndiff += 0 if same else 1
+        for k, algo in enumerate(("xxh3", "sha256")):
+            x, y = nout[4 * i + 2 * k], nout[4 * i + 2 * k + 1]
+            if "hash" not in x or "hash" not in y:
+                continue
+            if same and x["hash"] != y["hash"]:
+                ctx.violation("the output hash of a no-cache target differs between two workspaces with the same outputs (it depends on the workspace "
+                              "location or on the order of the outputs); it is the dependency digest in the keys of all dependants",
+                              {"kind": "oracle", "oracle": "no-cache output hash is a function of the set of (output definition, content)", "algo": algo,
+                               "request1": nreqs[4 * i + 2 * k], "request2": nreqs[4 * i + 2 * k + 1], "hash1": x["hash"], "hash2": y["hash"]},
+                              signature="nocache-outhash-equal-state-different-hash")
+            if not same and x["hash"] == y["hash"]:
+                ctx.violation("two no-cache targets with different outputs have the same output hash",
+                              {"kind": "oracle", "oracle": "no-cache output hash injective on sets of (output definition, content)", "algo": algo, "edit": kind,
+                               "request1": nreqs[4 * i + 2 * k], "request2": nreqs[4 * i + 2 * k + 1], "hash": x["hash"]},
+                              signature="nocache-outhash-collision")
+    ctx.coverage["digest_literal_vectors"] = len(reqs)
+    ctx.coverage["digest_large_file_pairs"] = len(pairs) * 2
+    ctx.coverage["nocache_outhash_pairs"] = len(meta) * 2
+    ctx.coverage["nocache_outhash_pairs_different"] = ndiff * 2
+    ctx.coverage["digest_disagreements"] = len(dis)
+    ctx.coverage["evaluations"] += len(reqs) + len(breqs) + len(nreqs)
+    ctx.coverage["traces_validated_against_impl"] += len(tr) + len(ntr)
+    if dis and not ctx.violations:
+        r, x, y = dis[0]
+        ctx.violation("a digest function of the real code differs from the model (HashFile/HashBytes/HashString = hash of the content; "
+                      "GetNoCacheOutputHash = hash of the sorted, comma-joined '<len>:<definition>:<digest>' elements)",
+                      {"kind": "correspondence", "correspondence": "hashing.HashFile/HashBytes/HashString, output.GetNoCacheOutputHash vs GrogModel.Hash.hashContent / outHashNoCache",
+                       "request": r, "impl": x, "model": y, "n_disagreements": len(dis)}, found_input=False)
+
+
 def search_hasher_break(ctx, env, bad_lengths):
     """The xxh3 hasher no longer agrees with XXH3-128 at these stream lengths: look for two target states that differ in one byte of the
     command (at the start, in the middle, near and at the end of a stream of about that length) and receive the same key."""
@@ -519,9 +656,21 @@ def _cli_ws(rng):
             deps = rng.sample(labels, min(len(labels), rng.choice([0, 1, 2])))
             fp = [[k, rng.choice(FPV)] for k in rng.sample(["k", "K", "platform", "v1"], rng.choice([0, 0, 1, 2]))]
             out = "o_%s.out" % name
-            ts.append({"name": name, "command": "echo %s_%s_%d > %s" % (pk.replace("/", "_"), name, rng.randrange(100), out),
-                       "deps": deps, "inputs": ins, "excludes": [], "outputs": [out], "bin_output": "", "checks": [],
-                       "tags": rng.choice([[], [], ["multiplatform-cache"]]), "fingerprint": fp, "env": [], "platforms": None, "timeout": ""})
+            cmd = "echo %s_%s_%d > %s" % (pk.replace("/", "_"), name, rng.randrange(100), out)
+            outs = [out]
+            tags = rng.choice([[], [], ["multiplatform-cache"]])
+            shape = rng.choice(["file", "file", "file", "nocache", "nocache-dir", "no-outputs"])
+            if shape == "nocache":                       # not stored itself; its output hash feeds the keys of its dependants
+                tags = tags + ["no-cache"]
+            elif shape == "nocache-dir":
+                tags = tags + ["no-cache"]
+                outs = [out, "dir::d_%s" % name]
+                cmd += " && mkdir -p d_%s/sub && echo %d > d_%s/sub/f.txt" % (name, rng.randrange(100), name)
+            elif shape == "no-outputs":                  # its change hash stands in for its output hash
+                outs, cmd = [], "true"
+            ts.append({"name": name, "command": cmd,
+                       "deps": deps, "inputs": ins, "excludes": [], "outputs": outs, "bin_output": "", "checks": [],
+                       "tags": tags, "fingerprint": fp, "env": [], "platforms": None, "timeout": ""})
             labels.append("//%s:%s" % (pk, name))
         pkgs[pk] = {"targets": ts, "aliases": [], "default_platforms": None}
     return pkgs, files
@@ -636,6 +785,33 @@ def cli_section(ctx):
                           {"kind": "oracle", "oracle": "CLI: dependant of two dependencies that swap outputs gets a new key and fresh bytes", "algo": algo,
                            "res_txt": got, "expected": "Y\nX\n", "new_cache_keys_in_second_build": new_keys, "expected_new_keys": 3, "log": log2[-600:]},
                           signature="collision:dependency-outputs-swapped-between-dependencies")
+    # --- a dependency without outputs: its change hash is its output digest, so editing its input changes the dependant's state ------
+    for algo in ("xxh3", "sha256"):
+        base = ctx.scratch("nooutdep_" + algo)
+        ws = os.path.join(base, "ws")
+        for pk in ("lib", "app"):
+            os.makedirs(os.path.join(ws, pk), exist_ok=True)
+        open(os.path.join(ws, "grog.toml"), "w").write("")
+        open(os.path.join(ws, "lib", "BUILD.json"), "w").write(_json.dumps({"targets": [{"name": "files", "command": "true", "inputs": ["data.txt"]}]}))
+        open(os.path.join(ws, "app", "BUILD.json"), "w").write(_json.dumps({"targets": [{"name": "bundle", "command": "cat ../lib/data.txt > bundle.txt",
+                                                                               "dependencies": ["//lib:files"], "outputs": ["bundle.txt"]}]}))
+        open(os.path.join(ws, "lib", "data.txt"), "w").write("one\n")
+        r1, _ = _keys_after_build(grog, ws, os.path.join(base, "root"), algo)
+        open(os.path.join(ws, "lib", "data.txt"), "w").write("two\n")
+        r2, log2 = _keys_after_build(grog, ws, os.path.join(base, "root"), algo)
+        runs += 2
+        if r1 is None or r2 is None or r1[0] != 0 or r2[0] != 0:
+            ctx.notes.append("output-less dependency scenario unusable: %s %s" % (r1, r2))
+            continue
+        got = open(os.path.join(ws, "app", "bundle.txt")).read()
+        new_keys = len(set(r2[1]) - set(r1[1]))
+        compared += 1
+        if got != "two\n" or new_keys != 2:
+            ctx.violation("a dependency without declared outputs changed (its input was edited); the dependant's state changed (the dependency's digest "
+                          "differs) but it kept its cache key and was served the stale result",
+                          {"kind": "oracle", "oracle": "CLI: dependant of an output-less dependency gets a new key when that dependency changes", "algo": algo,
+                           "bundle_txt": got, "expected": "two\n", "new_cache_keys_in_second_build": new_keys, "expected_new_keys": 2, "log": log2[-600:]},
+                          signature="collision:output-less-dependency-changed")
     ctx.coverage["cli_builds"] = runs
     ctx.coverage["cli_variants_compared"] = compared
     ctx.coverage["evaluations"] += runs
